@@ -918,4 +918,209 @@ theorem timerP_sat (hw : WF ts) (h : G ts e s) :
         fun qt hqt => Stay.parseQuantity (hq qt hqt)
       repeat (first | stay_step | (apply hs2; assumption))
 
+/-! ### Steps -/
+
+theorem drop_isEmpty_false {c : Nat} (h : (ts.drop c).isEmpty = false) : c < ts.length := by
+  rcases Nat.lt_or_ge c ts.length with h' | h'
+  · exact h'
+  · rw [List.drop_eq_nil_of_le h'] at h; cases h
+
+theorem drop_isEmpty_true {c : Nat} (h : (ts.drop c).isEmpty = true) : ts.length ≤ c := by
+  rcases Nat.lt_or_ge c ts.length with h' | h'
+  · have : (ts.drop c).length = 0 := by
+      rw [List.isEmpty_iff] at h; rw [h]; rfl
+    rw [List.length_drop] at this; omega
+  · exact h'
+
+/-- one iteration of the `while` of `parse_step` consumes at least one token -/
+theorem stepOne_sat (hw : WF ts) (h : G ts e s) (hlt : s.cur < ts.length) :
+    Sat (stepOne (α := α)) s (fun _ s' => G ts e s' ∧ s.cur < s'.cur) := by
+  unfold stepOne
+  apply Sat.bind
+  apply Sat.mono (Q := fun r s' => G ts e s' ∧
+    match r with
+    | none => s'.cur = s.cur
+    | some _ => s.cur < s'.cur)
+  · have comp : ∀ (p : P α (Option (Ev α))),
+        (∀ s : BP α, G ts e s → Sat p s (fun r s' => G ts e s' ∧ (r.isSome = true → s.cur < s'.cur))) →
+        Sat (withRecover p) s (fun r s' => G ts e s' ∧
+          match r with
+          | none => s'.cur = s.cur
+          | some _ => s.cur < s'.cur) := by
+      intro p hp
+      apply withRecover_sat
+      refine Sat.mono (hp s h) ?_
+      rintro r s1 ⟨g1, h1⟩
+      cases r with
+      | none => exact ⟨g1.setCur h.le, rfl⟩
+      | some b => exact ⟨g1, h1 rfl⟩
+    refine Sat.bind (peekK_sat h ?_)
+    split
+    · exact comp _ (fun s h => ingredientP_sat hw h)
+    · exact comp _ (fun s h => cookwareP_sat hw h)
+    · exact comp _ (fun s h => timerP_sat hw h)
+    · exact Sat.pure ⟨h, rfl⟩
+  rintro comp s1 ⟨g1, h1⟩
+  cases comp with
+  | some ev => exact Sat.pushEv ⟨g1.setEvs _, h1⟩
+  | none =>
+    dsimp only at h1 ⊢
+    refine Sat.bind (currentOffset_sat g1 ?_)
+    refine Sat.bind (Sat.getCur ?_)
+    have hget : ts[s1.cur]? = some ts[s1.cur] := List.getElem?_eq_getElem (by omega)
+    refine Sat.bind (Sat.mono (bumpAny_sat g1 hget) ?_)
+    rintro _ s2 ⟨-, g2, c2⟩
+    refine Sat.bind (Sat.mono (consumeWhile_sat _ g2) ?_)
+    rintro _ s3 ⟨g3, c3, -, -, -⟩
+    refine Sat.bind (Sat.get ?_)
+    try dsimp only
+    have hr : RunAt (offAt ts s1.cur) ((s3.toks.take s3.cur).drop s1.cur) := by
+      rw [g3.toks]; exact slice_runAt hw.run (by omega)
+    refine Sat.bind (bpText_sat hr ?_)
+    split
+    · exact Sat.pushEv ⟨g3.setEvs _, by show s.cur < s3.cur; omega⟩
+    · exact Sat.pure ⟨g3, by omega⟩
+
+theorem stepLoop_sat (hw : WF ts) (fuel : Nat) (h : G ts e s) (hf : ts.length - s.cur ≤ fuel) :
+    Sat (stepLoop (α := α) fuel) s (fun _ s' => G ts e s' ∧ s'.cur = ts.length) := by
+  have hle := h.le
+  induction fuel generalizing s with
+  | zero =>
+    unfold stepLoop
+    refine Sat.bind (restToks_sat h ?_)
+    have : ts.drop s.cur = [] := List.drop_eq_nil_of_le (by omega)
+    rw [this]
+    exact Sat.pure ⟨h, by omega⟩
+  | succ fuel ih =>
+    unfold stepLoop
+    refine Sat.bind (restToks_sat h ?_)
+    split
+    · rename_i hemp
+      have := drop_isEmpty_true hemp
+      exact Sat.pure ⟨h, by omega⟩
+    · rename_i hemp
+      have hlt := drop_isEmpty_false (by simpa using hemp)
+      refine Sat.bind (Sat.mono (stepOne_sat hw h hlt) ?_)
+      rintro _ s1 ⟨g1, c1⟩
+      exact ih g1 (by omega) g1.le
+
+theorem parseStep_sat (hw : WF ts) (h : G ts e s) :
+    Sat (parseStep (α := α)) s (fun _ s' => G ts e s' ∧ s'.cur = ts.length) := by
+  unfold parseStep
+  refine Sat.bind (Sat.pushEv ?_)
+  have g1 := h.setEvs (s.evs.push (.start .step))
+  refine Sat.bind (restToks_sat g1 ?_)
+  refine Sat.bind (Sat.mono (stepLoop_sat hw _ g1 (by simp)) ?_)
+  rintro _ s2 ⟨g2, c2⟩
+  exact Sat.pushEv ⟨g2.setEvs _, c2⟩
+
+/-! ### Text blocks, sections, metadata -/
+
+/-- the part of one iteration of `parse_text_block` after the optional `>` marker -/
+def textLineK (k : P α Unit) : P α Unit := do
+  let start ← currentOffset
+  let c0 ← getCur
+  let _ ← consumeWhile (fun k => k != .newline)
+  let _ ← consumeK .newline
+  let s ← get
+  let toks := (s.toks.take s.cur).drop c0
+  let text ← bpText start toks
+  if !text.isTextEmpty s.cs then
+    pushEv (.text text)
+    k
+  else k
+
+theorem textLineK_sat (hw : WF ts) (h : G ts e s) (k : P α Unit) (Q : Unit → BP α → Prop)
+    (hk : ∀ s2 : BP α, G ts e s2 → s.cur ≤ s2.cur → (s.cur < ts.length → s.cur < s2.cur) → Sat k s2 Q) :
+    Sat (textLineK (α := α) k) s Q := by
+  unfold textLineK
+  refine Sat.bind (currentOffset_sat h ?_)
+  refine Sat.bind (Sat.getCur ?_)
+  refine Sat.bind (Sat.mono (consumeWhile_sat _ h) ?_)
+  rintro _ s1 ⟨g1, c1, -, -, hend⟩
+  refine Sat.bind (Sat.mono (consumeK_sat _ g1) ?_)
+  rintro r2 s2 ⟨g2, h2⟩
+  have hprog : s1.cur ≤ s2.cur ∧ (s.cur < ts.length → s.cur < s2.cur) := by
+    cases r2 with
+    | some nl =>
+      obtain ⟨-, -, c2⟩ := h2
+      exact ⟨by omega, fun _ => by omega⟩
+    | none =>
+      obtain ⟨c2, hk⟩ := h2
+      refine ⟨by omega, fun hlt => ?_⟩
+      rcases Nat.lt_or_ge s.cur s1.cur with h' | h'
+      · omega
+      · exfalso
+        have e1 : s1.cur = s.cur := by omega
+        have hget : ts[s1.cur]? = some ts[s1.cur] := List.getElem?_eq_getElem (by omega)
+        have := hend _ hget
+        apply hk
+        rw [hget]
+        simp only [Option.map_some, Option.some.injEq]
+        simpa using this
+  refine Sat.bind (Sat.get ?_)
+  dsimp only
+  have hr : RunAt (offAt ts s.cur) ((s2.toks.take s2.cur).drop s.cur) := by
+    rw [g2.toks]; exact slice_runAt hw.run (by omega)
+  refine Sat.bind (bpText_sat hr ?_)
+  split
+  · refine Sat.bind (Sat.pushEv ?_)
+    exact hk _ (g2.setEvs _) (by show s.cur ≤ s2.cur; omega) hprog.2
+  · exact hk _ g2 (by omega) hprog.2
+
+theorem textBlockLoop_sat (hw : WF ts) (fuel : Nat) (h : G ts e s) (hf : ts.length - s.cur ≤ fuel) :
+    Sat (textBlockLoop (α := α) fuel) s (fun _ s' => G ts e s' ∧ s'.cur = ts.length) := by
+  have hle := h.le
+  induction fuel generalizing s with
+  | zero =>
+    unfold textBlockLoop
+    refine Sat.bind (restToks_sat h ?_)
+    have : ts.drop s.cur = [] := List.drop_eq_nil_of_le (by omega)
+    rw [this]
+    exact Sat.pure ⟨h, by omega⟩
+  | succ fuel ih =>
+    unfold textBlockLoop
+    refine Sat.bind (restToks_sat h ?_)
+    split
+    · rename_i hemp
+      have := drop_isEmpty_true hemp
+      exact Sat.pure ⟨h, by omega⟩
+    · rename_i hemp
+      have hlt := drop_isEmpty_false (by simpa using hemp)
+      have tail : ∀ s1 : BP α, G ts e s1 → s.cur ≤ s1.cur →
+          Sat (textLineK (α := α) (textBlockLoop fuel)) s1
+            (fun _ s' => G ts e s' ∧ s'.cur = ts.length) := by
+        intro s1 g1 c1
+        refine textLineK_sat hw g1 _ _ ?_
+        intro s2 g2 c2 hp
+        have hle2 := g2.le
+        have hle1 := g1.le
+        refine ih g2 ?_ g2.le
+        rcases Nat.lt_or_ge s1.cur ts.length with h' | h'
+        · have := hp h'; omega
+        · omega
+      refine Sat.bind (Sat.mono (consumeK_sat _ h) ?_)
+      rintro r1 s1 ⟨g1, h1⟩
+      cases r1 with
+      | none => exact tail s1 g1 (by omega)
+      | some m =>
+        obtain ⟨-, -, c1⟩ := h1
+        dsimp only
+        refine Sat.bind (Sat.mono (consumeK_sat _ g1) ?_)
+        rintro r2 s2 ⟨g2, h2⟩
+        refine tail s2 g2 ?_
+        cases r2 with
+        | none => omega
+        | some w => obtain ⟨-, -, c2⟩ := h2; omega
+
+theorem parseTextBlock_sat (hw : WF ts) (h : G ts e s) :
+    Sat (parseTextBlock (α := α)) s (fun _ s' => G ts e s' ∧ s'.cur = ts.length) := by
+  unfold parseTextBlock
+  refine Sat.bind (Sat.pushEv ?_)
+  have g1 := h.setEvs (s.evs.push (.start .text))
+  refine Sat.bind (restToks_sat g1 ?_)
+  refine Sat.bind (Sat.mono (textBlockLoop_sat hw _ g1 (by simp)) ?_)
+  rintro _ s2 ⟨g2, c2⟩
+  exact Sat.pushEv ⟨g2.setEvs _, c2⟩
+
 end Cook
